@@ -389,7 +389,7 @@ def registry(rc):
 _BDEU_OLD = "        gamma_conds_adj = (num_parents_states - counts.shape[1]) * gammaln(alpha)\n\n        score = (\n            (np.sum(log_gamma_counts) + gamma_counts_adj)\n            - (np.sum(log_gamma_conds) + gamma_conds_adj)\n            + num_parents_states * lgamma(alpha)\n            - counts_size * lgamma(beta)\n        )"
 
 
-@rule("C10.defuse", "anchored files: every parameter is read, no value is computed and dropped (generic def-use detectors, triaged hit list)", floor=2)
+@rule("C10.defuse", "anchored files: no parameter is accepted and ignored (generic def-use detector, triaged exemptions)", floor=2)
 def defuse(rc):
     from . import shared as _sh
     _sh.defuse_rule(rc, _sh.anchor_files("C10"))
